@@ -299,13 +299,22 @@ def record_extra(rng, g, k, D, N, C, x, y, m) -> List[List[dict]]:
         # (dice_score / dice_loss document identical shapes of input and target: the Tversky family is the one with several target forms)
         for nm, fn in (("tversky_index", lambda p_, t_, **kw: L.tversky_index(p_, t_, alpha=0.3, beta=0.7, **kw)),
                        ("tversky_index[dice]", lambda p_, t_, **kw: L.tversky_index(p_, t_, **kw)),
+                       ("dice_score", lambda p_, t_, **kw: L.dice_score(p_, t_ if t_.ndim == p_.ndim else torch.nn.functional.one_hot(t_, p_.shape[1]).movedim(-1, 1).float(),
+                                                                        **{k_: (v_ if v_.ndim == p_.ndim else v_.unsqueeze(1)) if k_ == "weight" else v_ for k_, v_ in kw.items()})),
+                       ("dice_loss", lambda p_, t_, **kw: L.dice_loss(p_, t_ if t_.ndim == p_.ndim else torch.nn.functional.one_hot(t_, p_.shape[1]).movedim(-1, 1).float(),
+                                                                      **{k_: (v_ if v_.ndim == p_.ndim else v_.unsqueeze(1)) if k_ == "weight" else v_ for k_, v_ in kw.items()})),
                        ("tversky_loss", lambda p_, t_, **kw: L.tversky_loss(p_, t_, alpha=0.3, beta=0.7, **kw))):
             evs.append(dict(ev="ax", ax="equals", loss=nm + "[target forms]", D=D, N=N, C=Cn, v1=cap(fn(pred, lab)), v2=cap(fn(pred, onehot)), what="label map target = one-hot target"))
             evs.append(dict(ev="ax", ax="equals", loss=nm + "[target forms]", D=D, N=N, C=Cn, v1=cap(fn(pred, lab, weight=wmap)), v2=cap(fn(pred, onehot, weight=wmap.unsqueeze(1))),
                             what="weight map (N, ...) = (N, 1, ...)"))
             ident = float(fn(onehot, lab))
             evs.append(dict(ev="ax", ax="equals", loss=nm + "[target forms]", D=D, N=N, C=Cn, v1=cap(ident), v2=cap(0.0 if nm.endswith("loss") else 1.0), what="identical segmentations (label map target)"))
-            if Cn == 2:
+            # a class that occurs in NEITHER segmentation: identical (empty) entries score 1 (loss 0), never a value outside [0, 1]
+            oh_x = torch.nn.functional.one_hot(lab, Cn + 1).movedim(-1, 1).float()
+            none_x = fn(oh_x, oh_x, reduction="none")
+            evs.append(dict(ev="ax", ax="equals", loss=nm + "[absent class]", D=D, N=N, C=Cn + 1, v1=cap(none_x.max()), v2=cap(0.0 if nm.endswith("loss") else 1.0), what="max over (N, C) entries incl. an absent class"))
+            evs.append(dict(ev="ax", ax="equals", loss=nm + "[absent class]", D=D, N=N, C=Cn + 1, v1=cap(none_x.min()), v2=cap(0.0 if nm.endswith("loss") else 1.0), what="min over (N, C) entries incl. an absent class"))
+            if Cn == 2 and nm.startswith("tversky"):
                 fg = pred[:, 1:2]
                 binm = lab.unsqueeze(1).float()
                 evs.append(dict(ev="ax", ax="equals", loss=nm + "[target forms]", D=D, N=N, C=Cn, v1=cap(fn(fg, binm)), v2=cap(fn(pred, binm)), what="foreground channel = two-channel prediction (binary target)"))
